@@ -13,7 +13,7 @@ cp -a /verif/sim "$S/sim"
 (cd "$S/repo" && if [ "$4" = "-R" ]; then patch -R -p1 -s < "$PATCH"; else patch -p1 -s < "$PATCH"; fi)
 # reuse the main build as a starting point so that only touched files are recompiled
 mkdir -p "$S/build"
-if [ -d /verif/build/asan ]; then cp -a /verif/build/asan "$S/build/asan"; find "$S/build/asan" -name '*.d' | xargs sed -i -e "s# /repo/# $S/repo/#g" -e "s#^/repo/#$S/repo/#" -e "s#/verif/build/asan/#@@B@@#g" -e "s#build/asan/#@@B@@#g" -e "s#@@B@@#$S/build/asan/#g" -e "s# /verif/sim/# $S/sim/#g" -e "s# sim/# $S/sim/#g"; fi
+if [ -d /verif/build/asan ]; then flock /verif/build/.lock cp -a /verif/build/asan "$S/build/asan"; find "$S/build/asan" -name '*.d' | xargs sed -i -e "s# /repo/# $S/repo/#g" -e "s#^/repo/#$S/repo/#" -e "s#/verif/build/asan/#@@B@@#g" -e "s#build/asan/#@@B@@#g" -e "s#@@B@@#$S/build/asan/#g" -e "s# /verif/sim/# $S/sim/#g" -e "s# sim/# $S/sim/#g"; fi
 cd /verif
 if [ "$PROP" = "exec" ]; then make -s -j16 REPO="$S/repo" BUILD="$S/build" SIM="$S/sim" >/dev/null 2>&1; NIXSIM_TRACE=1 "$S/build/asan/nixsim" exec "$TIER" 2>&1 | tail -${TAIL:-12}; exit 0; fi
 NIXSIM_SIM="$S/sim" NIXSIM_REPO="$S/repo" NIXSIM_BUILD="$S/build" NIXSIM_OUT="$S/out" ./check "$PROP" "$TIER" 2>&1 | sed "s#$S/out#<scratch>#g" | tail -${TAIL:-12}
